@@ -16,18 +16,51 @@ STUBS = ['injector, taps, recording sink, scripted sampling distribution']
 ASSUMPTIONS = ['workloads use configured flows only', 'counters are read after every tap; packet_in_service and Monitor '
                'samples are lenient at instants where a transmission starts or ends',
                'FLOAT workloads: relative tolerance 1e-9 on instants; GRID/DISTINCT exact']
-PROBES = ['back_to_back', 'arrival_exactly_at_transmission_end', 'monitor_sample', 'many_to_one_map',
+PROBES = ['no_downstream_device', 'back_to_back', 'arrival_exactly_at_transmission_end', 'monitor_sample', 'many_to_one_map',
           'kind_SP', 'kind_WFQ', 'kind_VC', 'kind_DRR', 'kind_RR', 'kind_WRR']
 
 
 def gen(rng, tier):
-    return sched.gen_sched_case(rng, tier)
+    case = sched.gen_sched_case(rng, tier)
+    if rng.random() < 0.06:
+        case['no_out'] = True      # a scheduler with nothing attached downstream
+        case.pop('shadow', None)
+    return case
+
+
+def check_no_out(r, case):
+    """Nothing is attached downstream, so departures are invisible: what remains are the public counters."""
+    viol, stats = [], {'no_downstream_device': 1}
+    w = r.w
+    for rec in w.log:
+        if rec[0] == 'ERR':
+            viol.append(('C12.6/%s' % (rec[4][1] if isinstance(rec[4], tuple) and len(rec[4]) > 1 else 'exc'),
+                         'the run raised %r' % (rec[4],)))
+    if not w.quiescent:
+        viol.append(('C12.6', 'the run did not reach quiescence'))
+    fin = [rec for rec in w.log if rec[0] == 'FIN']
+    if fin and not viol:
+        per, total, cur, _d = fin[-1][3] if isinstance(fin[-1][3], tuple) and len(fin[-1][3]) == 4 else ((), None, '?', None)
+        if total != 0 or any(n or b for _f, n, b in per):
+            viol.append(('C12.4', 'after the last transmission the counters still report packets: total %r, per flow %r' %
+                         (total, per)))
+        if cur is not None:
+            viol.append(('C12.4', 'the scheduler is idle but packet_in_service still names a packet (%r)' % (cur,)))
+    if r.mon is not None:
+        for f, lst in list(r.mon.sizes.items()) + list(r.mon.byte_sizes.items()):
+            if any(v < 0 for v in lst):
+                viol.append(('C12.5', 'Monitor reports a negative occupancy for flow %r: %r' % (f, lst[:8])))
+                break
+    return viol, stats, len(case.get('workload', [])) >= 2
 
 
 def run(case):
     r = sched.run_sched(case)
-    H = sched.parse(r)
-    viol, stats, nontrivial = sched.check_generic(H, case, ID)
+    if case.get('no_out'):
+        viol, stats, nontrivial = check_no_out(r, case)
+    else:
+        H = sched.parse(r)
+        viol, stats, nontrivial = sched.check_generic(H, case, ID)
     stats['kind_' + case['kind']] = 1
     if case.get('fmap') is not None:
         stats['many_to_one_map'] = 1
